@@ -204,6 +204,9 @@ def newSized (_ : Nat) : Bytes := []
 /-- `NewReadableBufferX(data)`: the unread bytes are `data` -/
 def newReadable (data : Bytes) : Bytes := data
 
+/-- `Reset()`: nothing unread any more, whatever the buffer held or grew to before -/
+def reset (_ : Bytes) : Bytes := []
+
 /-- a typed write on a buffer -/
 def write (v : Val) (buf : Bytes) : Out Unit × Bytes :=
   if writeOk v then (.ok (), buf ++ enc v) else (.err .sizeLimit, buf)
@@ -398,6 +401,11 @@ structure Src where
 deriving DecidableEq, Repr
 
 def Src.flat (s : Src) : Bytes := s.chunks.flatten
+
+/-- more bytes arrive on the source (a connection, a pipe, a `bytes.Buffer` that is still being written): they queue up
+    behind what it still holds. A source that had reported `io.EOF` delivers again afterwards — EOF only ever meant
+    "nothing at the moment". -/
+def Src.feed (s : Src) (cs : List Bytes) : Src := { s with chunks := s.chunks ++ cs }
 
 /-- the error a source reports when it has nothing more to deliver -/
 def endErr (fail : Bool) : Err := if fail then .io else .eof
